@@ -473,7 +473,7 @@ def run_part(ctx):
         worlds, d = base.make_worlds(ctx, m, f'ds_{done}')
         function_part(ctx, base, worlds)
         stage_part(ctx, base, worlds[:max(1, (2 * m) // 3)])
-        batch_part(ctx, base, worlds[:max(1, m // 2)])
+        batch_part(ctx, base, worlds)
         if first:
             empty_pairs_raise(ctx, base, worlds)
             first = False
